@@ -97,6 +97,12 @@ var propSpecs = map[string]*PropSpec{
 		TrustedBase: []string{"os.Rename replaces the destination atomically (rename(2)); a crash during any other call does not touch a file the call is not aimed at", "os.CreateTemp returns a fresh name different from the path and the backup name", "a complete Write to a freshly created file gives it exactly the new content", "os.ReadDir lists the directory (removeLeftovers removes every name it lists with the prefix)", "durability (fsync) is not part of the statement and not modelled"},
 		Extra:       c36Extra,
 	},
+	"C19": {
+		Patterns:    []string{"./..."},
+		Level:       "proof",
+		Explanation: "JSONMinify against the RFC 8259 string lexer as a ghost automaton: inductive invariant 'the code's flags agree with the automaton' and, per character, 'copied once unchanged unless white space outside a string'; WriteJSON hands the writer exactly the minified (or unminified) marshalled text of the handler's value; WriteMaybeCompressed sends the body or its announced gzip",
+		TrustedBase: []string{"encoding/json.MarshalIndent emits a JSON text (no backslash outside a string)", "RFC 8259 §2: white space between tokens is insignificant", "compress/gzip round trip", "unicode.IsSpace is false of '\"' and '\\'"},
+	},
 	"C27": {
 		Patterns: []string{"./..."},
 		Level:    "proof",
